@@ -40,6 +40,8 @@ func TestVerif(t *testing.T) {
 		verifRA(t, r, out, "ra3")
 	case "C04":
 		verifRA(t, r, out, "ra4")
+	case "C14":
+		verifC14Parsed(t, r, out)
 	default:
 		t.Fatalf("unknown VERIF_PROP %q for package config", prop)
 	}
@@ -1301,8 +1303,52 @@ func raCorpus(t *testing.T, out *vfh.Out, op string) {
 	raCase(t, out, op, full, sys, true)
 }
 
+// raGroupCase: one stanza shared by several interfaces through `names`.  Every interface is given
+// its OWN system state (as Prepare does when each advertiser initialises its interface, in order),
+// and only then are the RAs built: state of one interface must never show up in another's RA.
+func raGroupCase(t *testing.T, out *vfh.Out, op string, gi gIface, names []string, syss []sysState, fw bool) {
+	g := gi
+	g.name, g.names = "", names
+	cfg, err, pan := safeParse(gConfig{ifaces: []gIface{g}}.toml(), syss[0].epoch)
+	if pan != nil || err != nil || len(cfg.Interfaces) != len(names) {
+		// not accepted: the single-interface form covers rejection
+		return
+	}
+	for k := range names {
+		syss[k].inject(cfg.Interfaces[k])
+	}
+	for k, name := range names {
+		one := gi
+		one.name, one.names = name, nil
+		e := &enc{t: new(vfh.Toks)}
+		// intern the names in document order so that ids agree with the single-interface encoding
+		e.t.S(op)
+		e.iface(one)
+		syss[k].toks(e.t)
+		e.t.B(fw)
+		impl := new(vfh.Toks)
+		raImpl(t, e, impl, cfg.Interfaces[k], fw, op)
+		out.Line(e.t.String(), impl.String())
+	}
+}
+
 func verifRA(t *testing.T, r *vfh.Rand, out *vfh.Out, op string) {
 	raCorpus(t, out, op)
+	// stanzas shared by two or three interfaces (`names`), each interface with its own state
+	ng := vfh.N(600, 15000)
+	for k := 0; k < ng; k++ {
+		gi := genIface(r, "eth0", 99, false)
+		gi.monitor, gi.advertise = false, true
+		epoch := time.Unix(1700000000+r.Range(0, 1000000), r.Range(0, 999999999))
+		names := []string{"eth0", "eth1", "eth2"}[:2+r.Intn(2)]
+		var syss []sysState
+		for range names {
+			s := genSys(r, epoch)
+			s.addrsFail, s.routesFail = false, false
+			syss = append(syss, s)
+		}
+		raGroupCase(t, out, op, gi, names, syss, r.Chance(2, 3))
+	}
 	n := vfh.N(6000, 150000)
 	for k := 0; k < n; k++ {
 		valid := 97
@@ -1414,5 +1460,75 @@ func fixRouteInfoPrefixes(b []byte, ra *ndp.RouterAdvertisement) {
 			ri.Prefix = prefixes[k]
 			k++
 		}
+	}
+}
+
+// ---------------------------------------------------------------------------------------------
+// C14 through the configuration parser: static server lists as config.Parse builds them, the
+// `::` wildcard resolved from an injected address list, the option built several times.
+
+func verifC14Parsed(t *testing.T, r *vfh.Rand, out *vfh.Out) {
+	statics := []string{"2001:db8::53", "2001:db8::35", "fd00::53", "2001:4860:4860::8888", "fe80::53", "2001:db8::1"}
+	n := vfh.N(1500, 40000)
+	for k := 0; k < n; k++ {
+		perm := []int{0, 1, 2, 3, 4, 5}
+		vfh.Shuffle(r, perm)
+		ns := r.Intn(5)
+		servers := []string{}
+		for j := 0; j < ns; j++ {
+			servers = append(servers, statics[perm[j]])
+		}
+		// the wildcard at a random position
+		pos := r.Intn(len(servers) + 1)
+		servers = append(servers[:pos], append([]string{"::"}, servers[pos:]...)...)
+		gi := gIface{name: "eth0", advertise: true, rdnss: []gRDNSS{{servers: servers}}}
+		cfg, err, pan := safeParse(gConfig{ifaces: []gIface{gi}}.toml(), time.Unix(1700000000, 0))
+		if err != nil || pan != nil {
+			t.Fatalf("RDNSS stanza %v rejected: %v %v", servers, err, pan)
+		}
+		var rd *plugin.RDNSS
+		for _, p := range cfg.Interfaces[0].Plugins {
+			if x, ok := p.(*plugin.RDNSS); ok {
+				rd = x
+			}
+		}
+		// the case line carries the static servers as the parser resolved them the first time
+		static := append([]netip.Addr(nil), rd.Servers...)
+		// the interface's addresses change between builds
+		for build := 0; build < 3; build++ {
+			sys := genSys(r, time.Unix(1700000000, 0))
+			addrs := sys.addrs
+			rd.Addrs = func() ([]system.IP, error) { return addrs, nil }
+			c := new(vfh.Toks).S("wd").N(len(static))
+			for _, a := range static {
+				c.Addr(a)
+			}
+			c.N(len(addrs))
+			for _, a := range addrs {
+				c.Prefix(a.Address).B(a.Deprecated).B(a.ManageTemporaryAddresses).B(a.StablePrivacy).B(a.Temporary).B(a.Tentative).B(a.ValidForever)
+			}
+			ra := &ndp.RouterAdvertisement{}
+			impl := new(vfh.Toks)
+			if err := rd.Apply(ra); err != nil {
+				impl.S("err")
+			} else {
+				o := ra.Options[0].(*ndp.RecursiveDNSServer)
+				impl.N(len(o.Servers))
+				for _, s := range o.Servers {
+					impl.Addr(s)
+				}
+			}
+			out.Line(c.String(), impl.String())
+		}
+		// static servers as parsed: strictly ascending, the wildcard removed
+		c := new(vfh.Toks).S("wdstatic").N(len(servers))
+		for _, sv := range servers {
+			c.Addr(netip.MustParseAddr(sv))
+		}
+		impl := new(vfh.Toks).B(rd.Auto).N(len(static))
+		for _, a := range static {
+			impl.Addr(a)
+		}
+		out.Line(c.String(), impl.String())
 	}
 }
